@@ -824,3 +824,82 @@ func cmpFact(g Guard) (op token.Token, x, y ssa.Value, ok bool) {
 	}
 	return 0, nil, nil, false
 }
+
+// ---------- natural loops ----------
+
+type natLoop struct {
+	Head   *ssa.BasicBlock
+	Blocks map[*ssa.BasicBlock]bool
+}
+
+// naturalLoops: one loop per header (back edges P→H with H dominating P; bodies of back edges sharing a header are merged).
+func naturalLoops(f *ssa.Function) []*natLoop {
+	byHead := map[*ssa.BasicBlock]*natLoop{}
+	var order []*natLoop
+	for _, b := range f.Blocks {
+		for _, s := range b.Succs {
+			if !s.Dominates(b) {
+				continue
+			}
+			l := byHead[s]
+			if l == nil {
+				l = &natLoop{Head: s, Blocks: map[*ssa.BasicBlock]bool{s: true}}
+				byHead[s] = l
+				order = append(order, l)
+			}
+			// blocks that reach b without passing s
+			work := []*ssa.BasicBlock{b}
+			for len(work) > 0 {
+				x := work[len(work)-1]
+				work = work[:len(work)-1]
+				if l.Blocks[x] {
+					continue
+				}
+				l.Blocks[x] = true
+				work = append(work, x.Preds...)
+			}
+		}
+	}
+	return order
+}
+
+// exitOf: the exit blocks of the loop that are entered only from the loop or from the loop's entry test (the block
+// outside the loop that branches into its head — for a rotated loop the pre-header test `0 < n`). Code dominated by
+// such a block runs only after the loop ran to its end (or zero times).
+func (l *natLoop) cleanExits() []*ssa.BasicBlock {
+	var entries []*ssa.BasicBlock
+	for _, p := range l.Head.Preds {
+		if !l.Blocks[p] {
+			entries = append(entries, p)
+		}
+	}
+	var out []*ssa.BasicBlock
+	seen := map[*ssa.BasicBlock]bool{}
+	for b := range l.Blocks {
+		for _, s := range b.Succs {
+			if l.Blocks[s] || seen[s] {
+				continue
+			}
+			seen[s] = true
+			ok := true
+			for _, p := range s.Preds {
+				if l.Blocks[p] {
+					continue
+				}
+				isEntry := false
+				for _, e := range entries {
+					if e == p {
+						isEntry = true
+					}
+				}
+				if !isEntry {
+					ok = false
+				}
+			}
+			if ok {
+				out = append(out, s)
+			}
+		}
+	}
+	return out
+}
